@@ -176,6 +176,18 @@ def generate(seed, tier):
             else:               # fan-out joined by SUM
                 c2 = add(['op', '+', rv, ['n', 2]])
                 add(['f', 'SUM', b, c2])
+    # a defined name holding a volatile formula, with consumer cells
+    if sw.chance(.3):
+        kind = vr.pick(kinds if 'RANDBETWEEN' not in kinds else
+                       [k for k in kinds if k != 'RANDBETWEEN'] or ['NOW'])
+        world['vnames'] = [{'b': 0, 'f': volatile_form(
+            vr, ['n', vr.randrange(0, 5)], kind)}]
+        at = free_slot(world)
+        world['cells'].append({'at': at, 'f': ['op', '+', ['vn', 0],
+                                               ['n', 1]]})
+        at2 = free_slot(world)
+        world['cells'].append({'at': at2, 'f': ['op', '-', ['r'] + at + at[2:],
+                                                ['vn', 0]]})
     srng = Rng(seed, 'sched')
     kind = srng.weighted([('dict', 3), ('file', 2)])
     pl = identity_placement(world) if srng.chance(.5) else gen_placement(
@@ -437,8 +449,11 @@ def make_exe(world, P, s, spec, exes, fp):
                for i in spec['inputs']]
         outs = [i for i, c in enumerate(world['cells']) if 'f' in c]
         okeys = [P.rect_id(*cell_rect(world['cells'][i])) for i in outs]
+        okeys += [P.vname_id(n['b'], k)
+                  for k, n in enumerate(world.get('vnames', []))]
         func = src.obj.compile(ins, okeys)
-        return Exe('compile', func, {'inputs': spec['inputs'], 'outputs': outs})
+        return Exe('compile', func, {'inputs': spec['inputs'], 'outputs': outs,
+                                     'okeys': okeys})
     if k in ('deepcopy', 'dill'):
         obj = copy.deepcopy(src.obj) if k == 'deepcopy' else \
             dill.loads(dill.dumps(src.obj))
@@ -469,8 +484,8 @@ def evaluate(world, P, s, exe, fp):
         if not isinstance(res, (list, tuple)):
             res = [res]
         sol = dict(consts)
-        for i, v in zip(exe.meta['outputs'], res):
-            sol[P.rect_id(*cell_rect(world['cells'][i]))] = v
+        for key, v in zip(exe.meta['okeys'], res):
+            sol[key] = v
         return Observation(world, s['placement'], sol)
     # single formula: arguments are the stored constants (blank otherwise)
     i = exe.meta['cell']
@@ -567,6 +582,53 @@ def judge(world, exe, obs, reads, fp, fail, stats, j):
                      j, exe.kind, exe.evals, i, got,
                      [str(t) for t in reads][:4], results[:3]),
                  cell=i, exe=j, kind=exe.kind)
+    # defined names holding a volatile formula
+    for k, n in enumerate(world.get('vnames', [])):
+        if only is not None:
+            break
+        raw = obs.vnames.get(k)
+        if raw is None:
+            continue
+        got = norm_value(raw)
+        cs, rs = clock_sites(n['f']), rand_sites(n['f'])
+        key = 'vn%d' % k
+        if rs:
+            if prev is not None and prev.get(key) is not None:
+                stats['rand_fresh_checked'] += 1
+                if prev[key] == got:
+                    fail('C13.fresh.rand', 'exe %d (%s): name VOL_%s returned '
+                         '%s in two consecutive evaluations' % (
+                             j, exe.kind, chr(65 + k), got), exe=j,
+                         kind=exe.kind, fn=rs[0][1])
+        elif cs and len(cs) <= 2:
+            pools = []
+            for node in cs:
+                pool = serial_now if node[1] == 'NOW' else serial_today
+                pools.append(sorted(set(pool)) or [36526.25, 51544.75])
+            ok, results = False, []
+            for combo in itertools.product(*pools):
+                table = [(node, ['n', v]) for node, v in zip(cs, combo)]
+                st, res = fp.eval_expr(subst(n['f'], table), (n['b'], 0), obs)
+                if st != 'ok':
+                    ok = True
+                    break
+                res = norm_value(res)
+                results.append(res)
+                if close(res, got):
+                    ok = True
+                    if serial_now:
+                        break
+            if not serial_now and results:
+                ok = all(close(r, got) for r in results)
+            stats['clock_cells_checked'] += 1
+            if not ok:
+                fail('C13.fresh.clock', 'exe %d (%s), evaluation %d: name '
+                     'VOL_%s = %s is not its formula at any clock reading of '
+                     'this evaluation (readings %s -> %s)' % (
+                         j, exe.kind, exe.evals, chr(65 + k), got,
+                         [str(t) for t in reads][:4], results[:3]),
+                     exe=j, kind=exe.kind)
+        normal[key] = got
     exe.prev = normal
 
 
